@@ -4,7 +4,7 @@ From PGV Require Import Base.Bytes Base.GoStr Base.GoNum Base.Utf8.
 From PGV Require Import Model.RuleText Model.Value Model.Clause Model.Rules Spec.SizeSpec.
 From PGV Require Import Proofs.SizeProofs Proofs.C01Final Run.Run_C01.
 From PGV Require Import Spec.RuleTextSpec Proofs.NumProofs Proofs.C01Builder.
-From PGV Require Import Base.MiniGo Extracted.SourceFns Model.GoSize Proofs.GoSizeProofs.
+From PGV Require Import Base.MiniGo Extracted.SourceFnsSize Model.GoSize Proofs.GoSizeProofs.
 Open Scope Z_scope.
 
 (* to / oto: for EVERY rule text whose value the code parses to integer bounds lo~hi (negative,
